@@ -30,7 +30,7 @@ pub fn property() -> Property {
             },
             Part {
                 name: "search",
-                quick: 600,
+                quick: 1_600,
                 thorough: 20_000,
                 single_shard: false, supplementary: false,
                 run: |cfg| run_part(cfg, (prop_oneof![3 => gen::raw_pos(70), 2 => gen::raw_pos_endgames()], 1..=3u32, 0..4u8, any::<u16>()), |(r, d, h, x)| search_case(r, *d, *h, *x), check_search),
